@@ -361,10 +361,21 @@ def decoders_by_evaluation(ctx, report):
             def get_encoding(self):
                 return 'utf-8'
 
+            def get_param(self):
+                # an opaque<1..255>: one length octet, octets as items
+                return Obj(min_byte_num=1, max_byte_num=255, item_num_size=1, item_size=1, numeric_class=int)
+
+            def __call__(self, items):
+                return list(items)          # the vector object built from the octets: iterable over them
+
+        from ..binmodel import BinaryParser
+
         def extra(n, ev):
             d = ast.unparse(n.func)
-            if d.startswith('super(') and d.endswith('._parse'):
-                return (list(state['opaque']), state['n'])
+            if d == 'ParserBinary':
+                # the generic vector reader the class chain inherits (Opaque / Vector._parse and helpers split off them) runs on a model
+                # of the byte parser
+                return BinaryParser(ev.ev(n.args[0]))
             return NotImplemented
         hook = class_call_hook(c, extra, model)
         members = [member('O%d' % i, k) for i, k in enumerate(['h2', 'http/1.1', 'h', 'h2c', '\u00e9'])]
@@ -380,7 +391,7 @@ def decoders_by_evaluation(ctx, report):
                     text = None
                 want = next((m for m in members if text is not None and m.value.code == text), None)
                 try:
-                    got = Evaluator({'cls': me, 'parsable': bytes([len(raw)]) + raw}, hook, None).function(f.node)
+                    got = Evaluator({'cls': me, 'parsable': bytes([len(raw)]) + raw}, hook, hook.name_hook_for(c.module, None)).function(f.node)
                 except Raised as e:
                     if want is not None or 'InvalidValue' not in e.what:
                         bad.append('%r raises %s' % (raw, e.what.split('(')[0]))
